@@ -36,7 +36,7 @@ package resolver
 //@ interface tokenizer.Tokenize(pattern string) (tkns token.Tokens, err error) pure
 
 //@ func (*ArgResolver).ResolveArg
-//@   property C02 C12 C03 C04 C05 C06 C07 C11
+//@   property C02 C12 C03 C04 C05 C06 C07 C11 C14 C15 C16
 //@   requires [wired] forall j int :: 0 <= j && j < len(a.strategies) ==> a.strategies[j] != nil
 //@   ensures [first_supporting_strategy_decides] forall k int :: 0 <= k && k < len(a.strategies) && a.strategies[k].Supports(i)
 //@        && (forall q int :: 0 <= q && q < k ==> !a.strategies[q].Supports(i)) ==>
@@ -47,29 +47,29 @@ package resolver
 
 // non-string primitive: keeps its YAML value; the emitted code is the Go literal of that value; no dependencies
 //@ func (NonStringPrimitiveResolver).Supports
-//@   property C02 C03 C04
+//@   property C02 C03 C04 C05 C06 C07 C11 C12 C14 C15 C16
 //@   ensures [iff] result <==> (!isStr(i) && types.IsPrimitive(i))
 //@ func (NonStringPrimitiveResolver).ResolveArg
-//@   property C02 C06 C07 C03 C04
+//@   property C02 C06 C07 C03 C04 C05 C11 C12 C14 C15 C16
 //@   ensures [raw_kept_no_deps] result.1 == nil && e.Raw == i && len(e.DependsOnParams) == 0 && len(e.DependsOnServices) == 0 && len(e.DependsOnTags) == 0
 // the value is injected as the literal the helpers' exporter prints for it (which carries the type: `float64(2)`, not `2`)
 //@   ensures [code_is_the_exported_literal] e.Code == "dependencyValue(" + exported(i) + ")"
 
 // "$gontainer" (fixed id): the container itself; no dependencies
 //@ func (FixedValueResolver).Supports
-//@   property C02 C04
+//@   property C02 C04 C03 C05 C06 C07 C11 C12 C14 C15 C16
 //@   ensures [iff] result <==> (isStr(a) && strOf(a) == f.id)
 //@ func (FixedValueResolver).ResolveArg
-//@   property C02 C06 C07 C04
+//@   property C02 C06 C07 C04 C03 C05 C11 C12 C14 C15 C16
 //@   ensures [value_no_deps] result.1 == nil && result.0.Code == "dependencyValue(" + f.value + ")" && result.0.Raw == a
 //@        && len(result.0.DependsOnParams) == 0 && len(result.0.DependsOnServices) == 0 && len(result.0.DependsOnTags) == 0
 
 // "@name": the named service; the dependency list names exactly the service the emitted code asks for
 //@ func (ServiceResolver).Supports
-//@   property C02 C04 C11
+//@   property C02 C04 C11 C03 C05 C06 C07 C12 C14 C15 C16
 //@   ensures [iff] result <==> (isStr(i) && hasPrefix(strOf(i), "@"))
 //@ func (ServiceResolver).ResolveArg
-//@   property C02 C06 C07 C12 C04 C05 C11
+//@   property C02 C06 C07 C12 C04 C05 C11 C03 C14 C15 C16
 //@   requires [supported] isStr(i)
 //@   ensures [malformed_is_an_error] (result.1 != nil) <==> !matches(strOf(i), serviceRegex)
 //@   ensures [depends_on_exactly_the_named_service] result.1 == nil ==> len(result.0.DependsOnServices) == 1 && strOf(i) == "@" + result.0.DependsOnServices[0]
@@ -77,10 +77,10 @@ package resolver
 
 // "!tagged t": the services tagged t; the dependency list names exactly that tag
 //@ func (TaggedResolver).Supports
-//@   property C02 C04 C11
+//@   property C02 C04 C11 C03 C05 C06 C07 C12 C14 C15 C16
 //@   ensures [iff] result <==> (isStr(p) && matches(strOf(p), taggedPrefixRegex))
 //@ func (TaggedResolver).ResolveArg
-//@   property C02 C04 C07 C12 C05 C11
+//@   property C02 C04 C07 C12 C05 C11 C03 C06 C14 C15 C16
 //@   requires [supported] isStr(i)
 //@   ensures [malformed_is_an_error] (result.1 != nil) <==> !matches(strOf(i), taggedRegex)
 //@   ensures [depends_on_exactly_the_named_tag] result.1 == nil ==> len(result.0.DependsOnTags) == 1 && hasSuffix(strOf(i), result.0.DependsOnTags[0])
@@ -89,10 +89,10 @@ package resolver
 
 // "!value expr": a Go expression; no dependencies
 //@ func (ValueResolver).Supports
-//@   property C02 C04 C11
+//@   property C02 C04 C11 C03 C05 C06 C07 C12 C14 C15 C16
 //@   ensures [iff] result <==> (isStr(p) && matches(strOf(p), valuePrefixRegex))
 //@ func (ValueResolver).ResolveArg
-//@   property C02 C12 C04 C11 C14
+//@   property C02 C12 C04 C11 C14 C03 C05 C06 C07 C15 C16
 //@   requires [supported] isStr(p)
 //@   requires [wired] v.aliaser != nil
 //@   ensures [malformed_is_an_error] (result.1 != nil) <==> !matches(strOf(p), valueRegex)
@@ -100,12 +100,12 @@ package resolver
 
 // any other string: a parameter pattern
 //@ func (PatternResolver).Supports
-//@   property C02 C03 C04
+//@   property C02 C03 C04 C05 C06 C07 C11 C12 C14 C15 C16
 //@   ensures [iff] result <==> isStr(i)
 
 // parameters may depend on parameters only
 //@ func (ParamResolver).ResolveParam
-//@   property C03 C06 C07 C12 C11 C15
+//@   property C03 C06 C07 C12 C11 C15 C02 C04 C05 C14 C16
 //@   requires [wired] p.resolver != nil
 //@   ensures [no_service_or_tag_deps] result.1 == nil ==> len(p.resolver.ResolveArg(i).0.DependsOnServices) == 0 && len(p.resolver.ResolveArg(i).0.DependsOnTags) == 0
 //@        && result.0.DependsOnParams == p.resolver.ResolveArg(i).0.DependsOnParams && result.0.Code == p.resolver.ResolveArg(i).0.Code
@@ -113,7 +113,7 @@ package resolver
 
 // a pattern depends on exactly the parameters its tokens reference, in token order
 //@ func (PatternResolver).ResolveArg
-//@   property C03 C06 C07 C12 C02 C04 C05 C11
+//@   property C03 C06 C07 C12 C02 C04 C05 C11 C14 C15 C16
 //@   requires [supported] isStr(i)
 //@   requires [wired] p.tokenizer != nil
 //@   ensures [tokenizer_error_kept] p.tokenizer.Tokenize(strOf(i)).1 != nil ==> result.1 != nil
@@ -133,26 +133,26 @@ package resolver
 // ---- constructors: every collaborator and constant ends up in its own field (a swapped or dropped argument
 // would silently change which strategy / tokenizer / alias table the resolvers consult).
 //@ func NewArgResolver
-//@   property C02 C03 C04 C06 C07 C11
+//@   property C02 C03 C04 C06 C07 C11 C05 C12 C14 C15 C16
 //@   ensures [keeps_the_strategies_in_order] result != nil && ((forall j int :: 0 <= j && j < len(s) ==> s[j] != nil) ==> len(result.strategies) == len(s) && (forall j int :: 0 <= j && j < len(s) ==> result.strategies[j] == s[j]))
 //@ func NewFixedValueResolver
-//@   property C02
+//@   property C02 C03 C04 C05 C06 C07 C11 C12 C14 C15 C16
 //@   ensures [fields_as_given] result != nil && result.id == id && result.value == value
 //@ func NewNonStringPrimitiveResolver
-//@   property C02
+//@   property C02 C03 C04 C05 C06 C07 C11 C12 C14 C15 C16
 //@   ensures [nonnil] result != nil
 //@ func NewParamResolver
-//@   property C03 C06
+//@   property C03 C06 C02 C04 C05 C07 C11 C12 C14 C15 C16
 //@   ensures [fields_as_given] result != nil && result.resolver == resolver
 //@ func NewPatternResolver
-//@   property C03 C06 C07
+//@   property C03 C06 C07 C02 C04 C05 C11 C12 C14 C15 C16
 //@   ensures [fields_as_given] result != nil && result.tokenizer == t
 //@ func NewServiceResolver
-//@   property C02 C06
+//@   property C02 C06 C03 C04 C05 C07 C11 C12 C14 C15 C16
 //@   ensures [emits_a_service_dependency] result != nil && result.patternGetService == consts.TplDependencyService
 //@ func NewTaggedResolver
-//@   property C02 C04
+//@   property C02 C04 C03 C05 C06 C07 C11 C12 C14 C15 C16
 //@   ensures [emits_a_tag_dependency] result != nil && result.patternGetByTag == consts.TplDependencyTag
 //@ func NewValueResolver
-//@   property C02 C14
+//@   property C02 C14 C03 C04 C05 C06 C07 C11 C12 C15 C16
 //@   ensures [fields_as_given] result != nil && result.aliaser == a
